@@ -64,7 +64,28 @@ def query(c, t):
     if k == "q.space":
         r = c.get_space()
         return "None" if r is False else sorted_ps(r)
+    # ---- further read-only entry points, asked on the implementation only (not part of the model's protocol)
+    if k == "x.iter": return join([str(p) for p in c]) + "|" + join([str(p) for p in c])
+    if k == "x.repr": return repr(c)
+    if k == "x.size": return str(c.get_size())
+    if k == "x.add":
+        before = names(c)
+        r = str(c + P("XZ"))
+        return r + ("" if names(c) == before else f" AND THE OPERAND CHANGED to {names(c)}")
+    if k == "x.mul":
+        before = names(c)
+        o = mk(["XI", "ZZ"])
+        r = str(c * o) + "/" + str(o * c)
+        return r + ("" if names(c) == before and names(o) == ["XI", "ZZ"] else f" AND AN OPERAND CHANGED to {names(c)} / {names(o)}")
+    if k == "x.inst":
+        x = c.create_instance(n=3)
+        y = c.create_instance(pauli_str="XYZ")
+        x[0] = "Z"; y[1] = "I"
+        return f"{type(x).__name__}:{x}:{y}:{','.join(names(c))}"
+    if k == "x.list": return ";".join(f"{a}-{b}:{i}:{j}" for a, b, i, j in sorted((str(a), str(b), i, j) for a, b, i, j in c.list_connections()))
     raise KeyError(k)
+
+XBATTERY = ["x.iter", "x.repr", "x.size", "x.add", "x.mul", "x.inst", "x.list"]
 
 def edit(c, t):
     """returns the collection to continue with (a new object for `copy`)"""
@@ -233,7 +254,7 @@ def evaluate(line: str):
         for o, snap in originals:
             if names(o) != snap:
                 return f"after {':'.join(t)} on a copy, the original changed from {snap} to {names(o)}"
-    for q in BATTERY:
+    for q in BATTERY + XBATTERY + BATTERY[:5]:
         why = cmp_query(c, [q], "at the end of the history")
         if why:
             return why
